@@ -256,3 +256,23 @@ Theorem C09_built_jws_carries_signed_message :
          jws_message (compact header payload sig) hf = Some (msg, sig).
 Proof. exact built_jws_message. Qed.
 Print Assumptions C09_built_jws_carries_signed_message.
+
+From SV Require Import Base.Bytes Hash.B64 Json.GoJson Jws.Compact Jws.CompactProofs Parser.ViewOfBytes Jws.FromBytes.
+Local Close Scope Z_scope.
+
+(* VerifyJWS as a function of the compact string alone (the protected-header facts are computed in Coq by the encoding/json + go-jose decoder model, not supplied by the harness): acceptance implies a three-part string whose payload and signature are non-empty, a signing input exists, the key decodes and the primitive accepted *)
+Theorem C09_verify_from_bytes_sound :
+  forall (s : bytes) (k : jwk) (crypto_ok : bool),
+         verify_jws_bytes s k crypto_ok = true ->
+         exists payload sig msg : bytes,
+           parse_compact s (hdr_of_compact s) = Some (payload, sig) /\
+           signing_input (hdr_of_compact s) payload = Some msg /\
+           crypto_ok = true /\ jwk_decodes k = true /\ payload <> [] /\ sig <> [].
+Proof. exact verify_bytes_sound. Qed.
+Print Assumptions C09_verify_from_bytes_sound.
+
+(* whatever the bytes, when the primitive rejects, VerifyJWS rejects *)
+Theorem C09_forged_bytes_rejected :
+  forall (s : bytes) (k : jwk), verify_jws_bytes s k false = false.
+Proof. exact forged_bytes_rejected. Qed.
+Print Assumptions C09_forged_bytes_rejected.
